@@ -121,6 +121,29 @@ def judge_traces(ctx, traces):
     return verdicts
 
 
+def _regroup_chunk(args):
+    from ..common import bootstrap
+    bootstrap()
+    from .. import replay_mpo
+    ids, seed = args
+    return [(i, replay_mpo.regroup_case(i, seed)) for i in ids]
+
+
+def regroup(ctx):
+    n = 48 if ctx.tier == "quick" else 400
+    res = pmap(_regroup_chunk, [(list(range(k, n, 16)), ctx.seed) for k in range(16)], chunksize=1)
+    b = 0
+    for st, r in res:
+        if st != "ok":
+            raise MachineryError("regroup worker failed: " + r)
+        for i, out in r:
+            ctx.case(fingerprint=f"regroup/{i}", nontrivial=True)
+            b += out["builds"]
+            for key, what, detail in out["viol"]:
+                ctx.violation(key, what, detail)
+    ctx.notes["regroup_builds"] = b
+
+
 def run(ctx):
     tier = ctx.tier
     design_runs(ctx, tier)
@@ -136,6 +159,7 @@ def run(ctx):
             if key.startswith("C01"):
                 ctx.violation(key, what, detail)
         traces.extend(r["traces"])
+    regroup(ctx)
     verdicts = judge_traces(ctx, traces)
     by_id = {t["id"]: t for t in traces}
     for tid, v in verdicts.items():
